@@ -81,8 +81,8 @@ Section FlatModel.
 
   (* ------------------------------------------------------------ SingleInstancePredictor records
      _make_labeled_frames_from_generator zips video_idx / frame_idx / pred_instance_peaks: one LabeledFrame with ONE
-     PredictedInstance per sample.  fx = false: the code of the pinned and of the current tree (also for an all-NaN
-     row); fx = true: the repair C12_F62 (all-NaN row: no record). *)
+     PredictedInstance per sample.  fx = false: the code of the pinned tree, before fix 8463f22 (also for an all-NaN
+     row; historic); fx = true: the CURRENT tree, repair C12_F62 = 8463f22 (all-NaN row: no record). *)
   Definition all_nan (row : list (option peak)) : bool := forallb (fun o => negb (is_some o)) row.
 
   Definition si_record (fx : bool) (f v : nat) (row : list (option peak)) : list (nat * nat * list (list (option peak))) :=
